@@ -48,6 +48,58 @@ Theorem C12_level_history_independent :
 Proof. exact level_history_independent. Qed.
 Print Assumptions C12_level_history_independent.
 
+Theorem C12_apply_levels_spec :
+  forall (item : Type) (boundary fits : nat -> list item -> item -> bool) (summ : nat -> list item -> item),
+    no_overflow item fits ->
+    forall (f l : nat) (old : list (list (chunk item))) (cops : list (list (op item))),
+      wf item boundary fits summ l (map (old_of item) cops :: tl old) ->
+      apply_levels item boundary fits summ f l old cops =
+      build_levels item boundary fits summ f l (flat_map (new_of item) cops).
+Proof. exact apply_levels_spec. Qed.
+Print Assumptions C12_apply_levels_spec.
+
+Theorem C12_mutate_canonical :
+  forall (item : Type) (boundary fits : nat -> list item -> item -> bool) (summ : nat -> list item -> item),
+    no_overflow item fits ->
+    forall (key_of : item -> N) (item_eqb : item -> item -> bool) (xs : list item) (es : list (edit item)),
+      inc (map key_of xs) -> inc (map (ekey item key_of) es) ->
+      apply_mutations item boundary fits summ key_of item_eqb (build item boundary fits summ xs) es =
+      build item boundary fits summ (apply_edits item key_of item_eqb es xs).
+Proof. exact mutate_canonical. Qed.
+Print Assumptions C12_mutate_canonical.
+
+Theorem C12_history_independent :
+  forall (item : Type) (boundary fits : nat -> list item -> item -> bool) (summ : nat -> list item -> item),
+    no_overflow item fits ->
+    forall (key_of : item -> N) (item_eqb : item -> item -> bool) (h1 h2 : list (list (edit item))),
+      Forall (fun es => inc (map (ekey item key_of) es)) h1 ->
+      Forall (fun es => inc (map (ekey item key_of) es)) h2 ->
+      fold_left (fun ys es => apply_edits item key_of item_eqb es ys) h1 [] =
+      fold_left (fun ys es => apply_edits item key_of item_eqb es ys) h2 [] ->
+      fold_left (apply_mutations item boundary fits summ key_of item_eqb) h1 (build item boundary fits summ []) =
+      fold_left (apply_mutations item boundary fits summ key_of item_eqb) h2 (build item boundary fits summ []).
+Proof. exact history_independent_fold. Qed.
+Print Assumptions C12_history_independent.
+
+Theorem C12_history_independent_any_start :
+  forall (item : Type) (boundary fits : nat -> list item -> item -> bool) (summ : nat -> list item -> item),
+    no_overflow item fits ->
+    forall (key_of : item -> N) (item_eqb : item -> item -> bool) (xs1 xs2 : list item) (es1 es2 : list (edit item)),
+      inc (map key_of xs1) -> inc (map key_of xs2) ->
+      inc (map (ekey item key_of) es1) -> inc (map (ekey item key_of) es2) ->
+      apply_edits item key_of item_eqb es1 xs1 = apply_edits item key_of item_eqb es2 xs2 ->
+      apply_mutations item boundary fits summ key_of item_eqb (build item boundary fits summ xs1) es1 =
+      apply_mutations item boundary fits summ key_of item_eqb (build item boundary fits summ xs2) es2.
+Proof. exact history_independent. Qed.
+Print Assumptions C12_history_independent_any_start.
+
+Theorem C12_build_is_tree :
+  forall (item : Type) (boundary fits : nat -> list item -> item -> bool) (summ : nat -> list item -> item),
+    no_overflow item fits ->
+    forall xs : list item, is_tree item (build item boundary fits summ xs) = true.
+Proof. exact build_is_tree. Qed.
+Print Assumptions C12_build_is_tree.
+
 Theorem C12_mutate_canonical_refuted_with_overflow :
   exists (boundary fits : nat -> list N -> N -> bool) (summ : nat -> list N -> N)
          (xs : list N) (cops : list (list (op N))),
